@@ -39,7 +39,10 @@ func yamlMarshalStream(vs []any) ([]byte, error) {
 	return buf.Bytes(), nil
 }
 
-var yamlRE = regexp.MustCompile(`(?m)^---$`)
+// A separator line may end in "\r\n": without the "\r?" a stream with CRLF line
+// endings was taken for a single document and yaml.Unmarshal silently dropped
+// every document after the first.
+var yamlRE = regexp.MustCompile(`(?m)^---\r?$`)
 
 func yamlUnmarshalStream(in []byte) ([]any, error) {
 	// Differs from repeated yaml.Decode by treating "---\n---" as an empty
